@@ -119,6 +119,9 @@ func runC05(c *Ctx) {
 				cc.IsInvoke() && cc.Method.Name() == "Read" && strings.Contains(typeStr(cc.Value.Type()), "io.Reader"):
 				nSites++
 				r.Fail("R5.2", key, c.Pos(ci.Pos()), "the stream is consumed with a short-read primitive ("+n+"): a frame split across transport reads is mis-parsed")
+			case n == "(bufio.Reader).Buffered":
+				nSites++
+				r.Fail("R5.2", key, c.Pos(ci.Pos()), "the parser looks at how many bytes the bufio window happens to hold (Buffered()): what it does then depends on how the transport segmented the stream")
 			case n == "(bufio.Reader).ReadByte" || n == "io.ReadFull":
 				nSites++
 				r.OK("R5.2", key, c.Pos(ci.Pos()), "exact-length primitive")
